@@ -198,4 +198,46 @@ theorem transposed_involutive {α : Type} (dflt : α) (cols : List (List α)) (h
 
 example : transposeCols 0 [[1, 2, 3], [4, 5, 6]] = [[1, 4], [2, 5], [3, 6]] := by decide
 
+/-! ## additions of the audit -/
+
+/-- **Multi-key sorting with mixed directions** (`sorted(columns=[…], reverse=[…])`): let the key record of a
+row be its key fields `fields r`, field `i` passed through transform `T_i` — the identity for an ascending column,
+the negated dense rank among the column's distinct values for a reversed non-numeric column, `x * -1` for a reversed
+numeric column (each is `FieldOK` for its direction: `fieldOK_asc`, `fieldOK_descRank`, `fieldOK_descNum`).  Then for
+ALL column stores the result is a permutation of the rows in which every earlier row precedes every later row in the
+order the caller asked for: the FIRST differing key field decides, ascending or descending as requested
+(`mixedLe`).  Nothing is claimed about the relative order of rows with equal keys (numpy's argsort on records is
+not stable). -/
+theorem sorted_mixed_keys_order {α : Type} (dflt : α) (sp : List (Bool × (SKey → SKey)))
+    (fields : List α → List SKey) (cols : List (List α))
+    (hok : ∀ r ∈ rowsOf dflt cols, ∀ s ∈ rowsOf dflt cols, AllOK sp (fields r) (fields s)) :
+    (rowsOf dflt (sortedCols dflt lexLe (fun r => keyT sp (fields r)) cols)).Perm (rowsOf dflt cols) ∧
+    (rowsOf dflt (sortedCols dflt lexLe (fun r => keyT sp (fields r)) cols)).Pairwise
+      (fun r s => mixedLe (sp.map (·.1)) (fields r) (fields s) = true) := by
+  obtain ⟨hperm, hsorted⟩ := sortedCols_perm_sorted dflt lexLe lexLe_trans lexLe_total
+    (fun r => keyT sp (fields r)) cols
+  refine ⟨hperm, ?_⟩
+  unfold TableRows.SortedBy at hsorted
+  refine hsorted.imp_of_mem ?_
+  intro r s hr hs h
+  rw [← lexLe_keyT sp (fields r) (fields s) (hok r ((hperm.mem_iff).1 hr) s ((hperm.mem_iff).1 hs))]
+  exact h
+
+-- first key ascending (numbers), second key descending by rank over {'a', 'ab'}: the hypothesis is satisfiable and
+-- (1, 'ab') comes before (1, 'a')
+example : AllOK [(false, id), (true, fun k => .num (-((denseRank SKey.le [.str [97], .str [97, 98]] k : Nat) : Rat)))]
+    [.num 1, .str [97, 98]] [.num 1, .str [97]] :=
+  ⟨fieldOK_asc _ _, fieldOK_descRank _ _ _ (by decide) (by decide), trivial⟩
+example : mixedLe [false, true] [.num 1, .str [97, 98]] [.num 1, .str [97]] = true ∧
+    mixedLe [false, true] [.num 1, .str [97]] [.num 1, .str [97, 98]] = false ∧
+    mixedLe [false, true] [.num 0, .str [97]] [.num 1, .str [97, 98]] = true := by decide
+
+/-- `transposed` (data part): the rows of the transposed store are `list(zip(*rows))` of the original rows. -/
+theorem transposed_rows_are_zip {α : Type} (dflt : α) (cols : List (List α)) (hw : WF cols) (hn : nrows cols ≠ 0) :
+    rowsOf dflt (transposeCols dflt cols) = TableRows.transpose dflt cols.length (rowsOf dflt cols) :=
+  transposeCols_rows dflt cols hw hn
+
+example : TableRows.transpose 0 2 (rowsOf 0 [[1, 2, 3], [4, 5, 6]]) = [[1, 2, 3], [4, 5, 6]] ∧
+    rowsOf 0 (transposeCols 0 [[1, 2, 3], [4, 5, 6]]) = [[1, 2, 3], [4, 5, 6]] := by decide
+
 end CogentModel.C20
